@@ -306,6 +306,16 @@ def body_page(ctx, case):
     ctx.must("alto_import_raises", back.from_altoxml_string, xml)
     back_words = [l.transcription.split() for l in back.lines_iterator()]
     ctx.check(back_words == got_lines_all, "reimport_words_differ", lambda: "re-imported %r exported %r; " % (back_words, got_lines_all) + desc())
+    # ---- which lines pass the requested confidence is decided from the logits, not from a confidence the line happened to carry
+    # before (PAGE XML conf values, an earlier stage): the same page without stored confidences exports the same lines
+    bare = copy.deepcopy(pl)
+    for l in bare.lines_iterator():
+        l.transcription_confidence = None
+    doc_bare = walk(ctx.must("alto_export_raises", bare.to_altoxml_string, None, None, thr))
+    got_bare = [[[w.get("CONTENT") for w in l["words"]] for l in b["lines"]] for b in doc_bare["blocks"]]
+    got_with = [[[w.get("CONTENT") for w in l["words"]] for l in b["lines"]] for b in doc["blocks"]]
+    ctx.check(got_bare == got_with, "exported_lines_depend_on_a_stored_confidence",
+              lambda: "threshold %r: with the stored confidences %r, without %r; " % (thr, got_with, got_bare) + desc())
     # ---- the transcriptions are corrected on the exported layout (same line objects, same logits) and exported again ----
     tab_chars = [ch for ch in case["table"] if not ch.isspace()] or ["a"]
     want2 = []
